@@ -186,10 +186,7 @@ def run_task(name, harness, root=None, setup=None, allow_raise=None, both=False,
         for key, dead in shared.houdini_dead.items():
             alive = shared.houdini.get(key)
             if alive is None:
-                spec = shared.loop_specs.get(key)
-                alive = set(shared.all_cands.get(key, ())) if hasattr(shared, "all_cands") else None
-            if alive is None:
-                alive = set()
+                alive = set(shared.all_cands.get(key, ()))
             shared.houdini[key] = set(alive) - dead
         # remember universe of candidates on the first round
     # counterexample confirmation on concrete sizes: reductions over symbolic
